@@ -231,6 +231,7 @@ class Run:
             "units": sorted({u.split(":", 1)[1] for u in self.info.get("unit_list", [])}),
             "configs": sorted({u.split(":", 1)[0] for u in self.info.get("unit_list", [])}),
             "functions_in_scope": self.info.get("functions"),
+            "inlined_single_use_helpers": sorted({"%s <- %s" % (a, b) for a, b in self.info.get("inlined_single_use_helpers", [])}),
             "function_patterns_with_obligations": len(self.fn_seen),
             "rule_instances": sorted({o["instance"] for o in obs}),
             "by_instance": {i: sum(o.get("instantiations", 1) for o in obs if o["instance"] == i) for i in sorted({o["instance"] for o in obs})},
